@@ -91,10 +91,15 @@ class _FacadeStub:
         self.spa = spa
 
 
+_SHELL = []  # ONE long-lived shell per worker: a user captures one spa after the other in the same session
+
+
 def _shell_case(tmp, name, block, en, co, pack, packver, cfg, log):
     path = os.path.join(tmp, "snap.log")
-    shell = GeckoShell.__new__(GeckoShell)
-    shell.facade = _FacadeStub(_SpaStub(block, en, co, pack, packver, cfg, log, 10))
+    if not _SHELL:
+        _SHELL.append(GeckoShell.__new__(GeckoShell))
+    shell = _SHELL[0]
+    shell.facade = _FacadeStub(_SpaStub(block, en, co, pack, packver, cfg, log, 10))  # what do_manage does
     with FileLog(path, logging.INFO):
         GeckoShell.do_snapshot(shell, name)
     snaps = GeckoSnapshot.parse_log_file(path)
